@@ -56,6 +56,22 @@ BOOLEAN_HTML_ATTRIBUTES = [
 ]
 
 
+def _stable_repr(value: Any) -> str:
+    """Process-independent representation of a configuration value."""
+
+    if isinstance(value, Symbol):
+        value = value.value
+    if value is None or isinstance(value, (bool, int, float, str)):
+        return repr(value)
+    if isinstance(value, (set, frozenset, list, tuple)):
+        return repr(sorted(_stable_repr(item) for item in value))
+    module = getattr(value, '__module__', None)
+    name = getattr(value, '__qualname__', getattr(value, '__name__', None))
+    if isinstance(module, str) and isinstance(name, str):
+        return "{}.{}".format(module, name)
+    return repr(value)
+
+
 class PageTemplate(BaseTemplate):
     """Constructor for the page template language.
 
@@ -371,14 +387,26 @@ class PageTemplate(BaseTemplate):
         digest = sha256(hex_b)
         digest.update(';'.join(names).encode('utf-8'))
 
+        # Every option that influences the generated code must be part
+        # of the key, or two templates sharing a cache directory would
+        # share a module.
         for attr in (
             'trim_attribute_space',
             'implicit_i18n_translate',
-            'strict'
+            'strict',
+            'mode',
+            'default_expression',
+            'boolean_attributes',
+            'implicit_i18n_attributes',
+            'enable_data_attributes',
+            'enable_comment_interpolation',
+            'restricted_namespace',
+            'default_marker',
+            'tokenizer',
         ):
-            v = getattr(self, attr)
+            v = _stable_repr(getattr(self, attr))
             digest.update(
-                (";{}={}".format(attr, str(v))).encode('ascii')
+                (";{}={}".format(attr, v)).encode('utf-8')
             )
 
         return digest.hexdigest()[:32]
